@@ -51,7 +51,18 @@ var (
 	c14Worker *cdcWorker
 	c14Zones  = []string{"panic", "panic", "panic", "panic", "measurable", "measurable", "measurable", "measurable", "measurable",
 		"design", "design", "plus_one"}
+	// Inputs that END the worker process (an allocation between the ulimit and 2^48
+	// bytes: unrecoverable "out of memory") cost a process restart each. They are
+	// drawn with probability c14LethalPerMille/1000 (divided by 12 in the thorough
+	// tier so that their absolute number stays in the hundreds).
+	c14LethalDiv = 1
 )
+
+const c14LethalPerMille = 12
+
+func c14Lethal(rt *rapid.T) bool {
+	return cdcUniform(rt, "lethal", 1000*c14LethalDiv) < c14LethalPerMille
+}
 
 const c14Slack = 1 << 20
 const c14Factor = 64
@@ -76,8 +87,8 @@ func c14GenBomb(rt *rapid.T) c14Input {
 	in := c14GenBase(rt, c14Both)
 	c14GenNode(rt, &in, c14Both)
 	in.Zone = c14Zones[cdcUniform(rt, "zone", len(c14Zones))]
-	if cdcUniform(rt, "fatalk", 100) == 0 {
-		in.Zone = "fatal"
+	if c14Lethal(rt) {
+		in.Zone = []string{"fatal", "design_lethal"}[cdcUniform(rt, "lethalk", 2)]
 	}
 	in.Sel = rapid.Uint64().Draw(rt, "sel")
 	in.Val = rapid.Uint64().Draw(rt, "val")
@@ -90,7 +101,7 @@ func c14BombCount(zone string, val uint64, m *typegen.Mark) uint64 {
 	if es == 0 {
 		es = 1
 	}
-	if m.IsMap && (zone == "design" || zone == "fatal") && val%16 != 0 {
+	if m.IsMap && (zone == "design_lethal" || zone == "fatal") && val%4 != 0 {
 		// make(map, hint) with a hint of billions builds millions of small tables until the
 		// ulimit is hit: tens of seconds per case. Kept, but rare.
 		zone = "measurable"
@@ -103,8 +114,10 @@ func c14BombCount(zone string, val uint64, m *typegen.Mark) uint64 {
 		return target/es + 1
 	case "fatal": // between the ulimit and maxAlloc: the runtime throws "out of memory" (not recoverable)
 		return []uint64{(4 << 30) / es, (1 << 40) / es}[val%2] + 1
-	case "design": // the list of DESIGN.md
-		return []uint64{1 << 31, 1<<32 - 1, 1 << 56, ^uint64(0)}[val%4]
+	case "design": // the list of DESIGN.md, the two values that make runtime.makeslice panic
+		return []uint64{1 << 56, ^uint64(0)}[val%2]
+	case "design_lethal": // the list of DESIGN.md, the two values that usually end the process
+		return []uint64{1 << 31, 1<<32 - 1}[val%2]
 	default: // announced count just above what is there
 		return m.Val + 1 + val%3
 	}
@@ -231,21 +244,20 @@ func c14BombCheck(c *kit.Case, in c14Input) {
 func c14GenFrame(rt *rapid.T) c14Input {
 	in := c14Input{Type: "fuzz.Message", Mode: "tiny", Cut: -1}
 	var l uint32
-	switch rapid.IntRange(0, 9).Draw(rt, "lk") {
-	case 0, 1:
-		l = 0
-	case 2:
-		l = 0xFFFFFFFF
-	case 3:
-		l = 0x80000000
-	case 4:
-		l = 1
-	case 5, 6:
-		l = uint32(8<<20) + uint32(rapid.IntRange(0, 4).Draw(rt, "lm"))*(8<<20)
-	case 7:
-		l = rapid.Uint32().Draw(rt, "lr")
-	default:
-		l = uint32(rapid.IntRange(0, 64).Draw(rt, "ls"))
+	if cdcUniform(rt, "lethal", 100*c14LethalDiv) < 4 {
+		// 4 GiB / 2 GiB requests: the worker dies (frame length 0 wraps to 2^32-1)
+		l = []uint32{0, 0, 0xFFFFFFFF, 0x80000000, 0xC0000000}[cdcUniform(rt, "lethalk", 5)]
+	} else {
+		switch rapid.IntRange(0, 7).Draw(rt, "lk") {
+		case 0:
+			l = 1
+		case 1, 2, 3:
+			l = uint32(8<<20) + uint32(rapid.IntRange(0, 4).Draw(rt, "lm"))*(8<<20)
+		case 4:
+			l = uint32(rapid.IntRange(1<<20, 4<<20).Draw(rt, "lr"))
+		default:
+			l = uint32(rapid.IntRange(1, 64).Draw(rt, "ls"))
+		}
 	}
 	payload := rapid.SliceOfN(rapid.Byte(), 0, 48).Draw(rt, "payload")
 	tag := rapid.SampledFrom([]byte{0, 1, 2, 3, 4, 5, 255, 6, 0x7F}).Draw(rt, "tag")
@@ -349,6 +361,9 @@ func TestVerif_C14(t *testing.T) {
 		if cdc.HasDec {
 			c14All = append(c14All, cdc)
 		}
+	}
+	if s.Thorough() {
+		c14LethalDiv = 12
 	}
 	c14Worker = cdcNewWorker("TestVerif_C14")
 	c14Worker.Single = s.Replaying()
